@@ -63,11 +63,6 @@ Definition io_pop (s : ioreader) : res (byte * ioreader) :=
   | [b] => Ok (b, {| io_rd := r'; io_scratch := io_scratch s; io_cursor := io_cursor s; io_end := io_end s |})
   | _ => Panic
   end.
-Fixpoint write_run' (buf : list byte) (at_ : nat) (bs : list byte) : option (list byte) :=
-  match bs with
-  | [] => Some buf
-  | b :: r => match write_at buf at_ b with Some buf' => write_run' buf' (S at_) r | None => None end
-  end.
 Definition io_take_n (ct : N) (s : ioreader) : res (list byte * ioreader) :=
   if Nat.ltb (io_end s) (io_cursor s) then Fault
   else
@@ -76,7 +71,7 @@ Definition io_take_n (ct : N) (s : ioreader) : res (list byte * ioreader) :=
     else
       let n := N.to_nat ct in
       let* '(bs, r') := read_exact (io_rd s) n in                               (* reader.read_exact(buff) *)
-      match write_run' (io_scratch s) (io_cursor s) bs with
+      match splice (io_scratch s) (io_cursor s) bs with
       | None => Fault                                                           (* slot outside the scratch buffer *)
       | Some sc' => Ok (bs, {| io_rd := r'; io_scratch := sc'; io_cursor := (io_cursor s + n)%nat; io_end := io_end s |})
       end.
